@@ -11,6 +11,9 @@ Definition str_make (c : Z) (src : list Z) (len : Z) : res istr := ctor_ptr c CC
 Definition str_ctor_fill (c count ch : Z) : res istr := ctor_fill c CChar count ch.
 Definition str_make_w (c : Z) (src : list Z) (len : Z) : res istr := ctor_ptr c CWchar src len.
 Definition str_ctor_fill_w (c count ch : Z) : res istr := ctor_fill c CWchar count ch.
+(* basic_inplace_string<char16_t, N>: 2-byte characters (pointer arithmetic wraps at 2^63) *)
+Definition str_make_16 (c : Z) (src : list Z) (len : Z) : res istr := ctor_ptr c CChar16 src len.
+Definition str_ctor_fill_16 (c count ch : Z) : res istr := ctor_fill c CChar16 count ch.
 Definition str_size (s : istr) : Z := get_size s.
 Definition str_index (s : istr) (i : Z) : res Z := index_m s i.
 Definition str_front (s : istr) : res Z := front_m s.
